@@ -627,7 +627,8 @@ def properties(ch, depth=3, chaos=0, wild_time=False, max_width=4, meta=True, sc
         for i in range(len(topics)):
             if ch.int(0, 1) == 0:
                 cand = rand_topic(ch)
-                if cand not in topics:
+                # topics and aliases share one namespace in type_check_references(msg_types)
+                if cand not in topics and cand not in ALIASES:
                     topics[i] = cand
     topic_schemas = {t: schemas(ch, depth=1, small=True) for t in topics}
     pc = PropCtx(topic_schemas, chaos=chaos)
